@@ -523,6 +523,11 @@ pub fn run(ctx: &Ctx, rep: &mut Report, replay: Option<&serde_json::Value>) {
     rep.assume("forced outcomes use the verif hook and are serialised process-wide");
     ctx.shrink_iters.store(40, std::sync::atomic::Ordering::Relaxed);
     if let Some(v) = replay {
+        if v.get("sub").and_then(|s| s.as_str()) == Some("rrdp-expired") {
+            let t: Tagged<Scenario> = serde_json::from_value(v.clone()).expect("replay");
+            run_case(ctx, rep, &t.sub, &t.case, rrdp_expired_prop);
+            return;
+        }
         if v.get("sub").and_then(|s| s.as_str()) == Some("rrdp") {
             let t: Tagged<Scenario> = serde_json::from_value(v.clone()).expect("replay");
             run_case(ctx, rep, &t.sub, &t.case, rrdp_prop);
@@ -538,6 +543,10 @@ pub fn run(ctx: &Ctx, rep: &mut Report, replay: Option<&serde_json::Value>) {
     }
     rep.rule("(rrdp) E-rpki histories of 2-4 runs in which every CA is published through one of 2 RRDP repositories with chance 1/2, child CAs vanish from / appear in single versions of their parent's manifest (4/16 per child), notifications fail (4/16 per repository and run), modules are unreachable, runs are offline, dirty is on 1 in 8; oracle after every run (shared judge): the stored points of the model are present and byte-identical under the path keyed by rpkiNotify, the payload equals the model's (so the retained data is usable), and the local archive of every RRDP repository the model retains (updated or tried in this run, or referred to by a retained stored point) exists; non-trivial = a repository failed in a run after one that stored a point of one of its CAs, or a CA published through RRDP with a stored point vanished from its parent's manifest");
     run_prop_par(ctx, rep, "rrdp", ctx.tier.pick(80, 1600), 8, || (genome(260), rrdp_genome(), genome(24)).prop_map(|(w, r, k)| rrdp_case(&w, &r, &k)), rrdp_prop);
+    if !rep.violated() {
+        rep.rule("(rrdp-expired) the same generated RRDP trees, two runs with refresh = rrdp-fallback-time = 1 s: everything fetched, 2.2 s pause (local copies past their best-before), every RRDP server failing in the second run; oracle: the second run succeeds and the archive of every repository to which a stored point with an unexpired manifest is keyed still exists; non-trivial = at least one such repository");
+        run_prop_par(ctx, rep, "rrdp-expired", ctx.tier.pick(16, 240), 8, || (genome(260), rrdp_genome(), genome(24)).prop_map(|(w, r, k)| rrdp_case(&w, &r, &k)), rrdp_expired_prop);
+    }
     // a run in which most histories could not be judged says nothing: infrastructure failure
     let dropped: u64 = rep.dropped.values().sum();
     if !rep.violated() && dropped * 2 > rep.evaluations {
@@ -548,6 +557,62 @@ pub fn run(ctx: &Ctx, rep: &mut Report, replay: Option<&serde_json::Value>) {
 
 //------------------------------------------------------------------------------------------
 // Sub-check "rrdp": retention of RRDP-keyed stored points and local RRDP archives
+
+
+//------------------------------------------------------------------------------------------
+// Sub-check "rrdp-expired": a local RRDP copy past its best-before time is still a collector copy
+// the stored points use
+
+/// Two runs over one generated RRDP tree with refresh = rrdp-fallback-time = 1 s (best-before of a
+/// local copy: 1-2 s after its update). Run 1 fetches everything; after 2.2 s every RRDP server
+/// fails (so the copies are not refreshed and count as expired); run 2 must succeed and its cleanup
+/// must keep the archive of every repository a stored point with an unexpired manifest refers to.
+fn rrdp_expired_prop(sc: &Scenario, info: &mut CaseInfo) -> Verdict {
+    let mut world = World::new(sc, crate::erun::scratch_base());
+    let ex = empty_exceptions();
+    let step = sc.steps[0].clone();
+    let tweak = |c: &mut routinator::config::Config| {
+        c.refresh = std::time::Duration::from_secs(1);
+        c.rrdp_fallback_time = std::time::Duration::from_secs(1);
+    };
+    world.publish(&step);
+    if let Err(e) = world.run_with(false, &ex, tweak) {
+        return Verdict::fail("C40/rrdp-expired/run-failed", format!("first run: {}", e));
+    }
+    // repositories with an archive and a stored, unexpired point keyed to them
+    let mut needed: std::collections::BTreeMap<usize, Vec<usize>> = Default::default();
+    for (i, ca) in sc.cas.iter().enumerate() {
+        let Some(r) = ca.rrdp else { continue };
+        let v = step.publish.get(i).copied().unwrap_or(0).min(ca.versions.len().saturating_sub(1));
+        let long_lived = ca.versions.get(v).map(|ver| ver.ee_after_off > 600).unwrap_or(false);
+        if long_lived && matches!(world.read_stored(i), Ok(Some(_))) && rrdp_archive_path_in(&world.cache(), r).exists() {
+            needed.entry(r).or_default().push(i);
+        }
+    }
+    info.nontrivial = !needed.is_empty();
+    info.class(format!("expired/repositories_needed={}", needed.len().min(2)));
+    info.class(if sc.cfg.dirty { "dirty" } else { "cleanup_on" });
+    if needed.is_empty() {
+        return Verdict::Pass;
+    }
+    std::thread::sleep(std::time::Duration::from_millis(2200));
+    for r in rrdp_repos(sc) {
+        world.sabotage_rrdp(r, 0);
+    }
+    if let Err(e) = world.run_with(false, &ex, tweak) {
+        return Verdict::fail("C40/rrdp-expired/run-failed", format!("second run: {}", e));
+    }
+    for (r, cas) in &needed {
+        let still_stored: Vec<usize> = cas.iter().copied().filter(|i| matches!(world.read_stored(*i), Ok(Some(_)))).collect();
+        if !still_stored.is_empty() && !rrdp_archive_path_in(&world.cache(), *r).exists() {
+            return Verdict::fail(
+                "C40/rrdp-archive-removed/copy-past-best-before",
+                format!("the local archive of RRDP repository {} was removed by the cleanup of a successful run although the store holds points with unexpired manifests keyed to it (CAs {:?}); the copy was 2.2 s old with a best-before of 1-2 s and the server failed in this run; dirty={}", r, still_stored, sc.cfg.dirty),
+            );
+        }
+    }
+    Verdict::Pass
+}
 
 fn rrdp_case(words: &[u16], rwords: &[u16], kwords: &[u16]) -> Scenario {
     let mut hp = HistProfile::default();
